@@ -61,6 +61,30 @@ theorem Max_eq (a b : Int) : Trans.internal_Max a b = max a b := by
 theorem Min_eq (a b : Int) : Trans.internal_Min a b = min a b := by
   unfold Trans.internal_Min; simp only [decide_eq_true_eq]; split <;> omega
 
+/-- `doWrite`: the payload of a data frame (Continuation, Text, Binary) enters the compression window, the payload of a
+control frame does not (defect 10 of DESIGN section 6 was exactly this rule) -/
+theorem doWrite_windowRule_eq (w : Win) (opcode : UInt8) (payload : Bytes) :
+    Trans.Conn_doWrite_windowRule w.enabled w.dict (w.size : Int) opcode payload
+      = .ok (if opcode.toNat ≤ Facts.dataFrameMaxOpcode then (w.write payload).dict else w.dict) := by
+  unfold Trans.Conn_doWrite_windowRule
+  rw [slideWindow_Write_eq]
+  have h : Trans.Opcode_isDataFrame opcode = decide (opcode.toNat ≤ Facts.dataFrameMaxOpcode) := by
+    revert opcode; apply u8_forall; decide +kernel
+  rw [h]
+  by_cases hd : opcode.toNat ≤ Facts.dataFrameMaxOpcode <;> simp [hd]
+
+/-- `Broadcaster.writeFrame`: the broadcast payload enters the window iff the shared frame has RSV1 set, i.e. was built
+compressed (defect 11) -/
+theorem broadcast_windowRule_eq (w : Win) (frame payload : Bytes) :
+    Trans.Broadcaster_writeFrame_windowRule payload w.enabled w.dict (w.size : Int) frame
+      = .ok (if ((goIdx frame 0).toNat / 64 % 2 = 1) then (w.write payload).dict else w.dict) := by
+  unfold Trans.Broadcaster_writeFrame_windowRule
+  rw [slideWindow_Write_eq]
+  have h : ∀ b : UInt8, ((b &&& (64 : UInt8)) != (0 : UInt8)) = decide (b.toNat / 64 % 2 = 1) := by
+    intro b; revert b; apply u8_forall; decide +kernel
+  rw [h]
+  by_cases hd : (goIdx frame 0).toNat / 64 % 2 = 1 <;> simp [hd]
+
 example : Trans.slideWindow_Write [1, 2, 3] true [9, 8] 4 = ([8, 1, 2, 3], 3, none) := by decide
 example : Trans.internal_binaryCeil 129 = 256 ∧ Trans.internal_BinaryPow 8 = 256 := by decide
 
